@@ -266,6 +266,14 @@ def run(repo='/repo', tier='quick'):
     from . import mirror
     mirror.run(db, res, 'C06.g', [('htp_connp_REQ_BODY_CHUNKED_DATA_END', 'htp_connp_RES_BODY_CHUNKED_DATA_END', None), ('htp_tx_req_process_body_data', 'htp_tx_res_process_body_data', None),
                                   ('htp_connp_REQ_BODY_CHUNKED_DATA', 'htp_connp_RES_BODY_CHUNKED_DATA', (('(connp->in_tx->request_message_len += bytes_to_consume)',), (), 'the response side accounts the bytes inside the hand-over call (C06.c)'))])
+    from . import coupdate
+    coupdate.run(db, res, 'C06.h', [('htp_connp_t', 'in_stream_offset', 'in_current_read_offset', 6, 'the position in the stream moves with the position in the chunk'),
+                                     ('htp_connp_t', 'out_stream_offset', 'out_current_read_offset', 6, 'the position in the stream moves with the position in the chunk'),
+                                     ('htp_connp_t', 'in_current_read_offset', 'in_stream_offset', 6, 'bytes passed over in the chunk are bytes passed over in the stream', ('+=', '++')),
+                                     ('htp_connp_t', 'out_current_read_offset', 'out_stream_offset', 6, 'bytes passed over in the chunk are bytes passed over in the stream', ('+=', '++')),
+                                     ('htp_tx_data_t', 'tx', 'len', 5, 'a data record is filled completely before it is handed on'),
+                                     ('htp_tx_data_t', 'len', 'tx', 5, 'a data record is filled completely before it is handed on')],
+                  'fields that change together: the stream offset moves wherever the read offset of the same direction is advanced past consumed bytes, and a body data record gets its transaction and its length in the same step')
     return res
 
 
